@@ -64,6 +64,27 @@ CHECKS = {
         technique="TLA+ spec (DataModel.tla) model-checked with TLC; spec->impl replay of every explored value tree "
                   "through three routes; independent decoders as byte-level environment",
     ),
+    "C04": dict(
+        category="exploration",
+        text="Exploration with a model-checked core. Core: every unwrap()/unreachable!()/panic!(\"BUG\") of translate.rs, "
+             "vm.rs and runtime.rs is an explicit Panic(site) outcome of Translate.tla/VM.tla; NoPanicAtEnd, CleanAtEnd, "
+             "NoFuel and Agreement are model-checked on every Gen.tla program of the C04 families (operators, arithmetic, "
+             "format incl. placeholder/argument mismatches, casts of composites, wrong arity, map/filter/reduce, simulated "
+             "full grammar with two ill-typed joins). Exploration: every text goes, under crash and time capture, through "
+             "tokenize, parse, fmt (twice), translate, eval (strict and not), every converter on every resulting value and a "
+             "checked file build - generated programs, the same with integer literals refined to arithmetic edge values "
+             "(i64 extremes, overflowing literals), Mutate.tla scripts (delete/duplicate/swap/replace a token, <= 3 "
+             "mutations) applied to the token sequences of generated programs, every .ucg file of the repository and the "
+             "fuzz corpus, Lexer.tla simulation texts (random token-class sequences with random layout, non-ASCII, CR/LF, "
+             "unterminated strings and comments), the raw corpus - and a sample through the `ucg build` / `ucg fmt` "
+             "binaries (exit 0 or 1, a message on 1). Every other check's replay runs under the same capture.",
+        design_ref="DESIGN.md §5/C04, §6",
+        note="For raw text the oracle is `returns`, which no model strengthens: the level claimed is exploration. "
+             "Excluded as in the property: nesting > 64, ranges > 10^6 (any 7-digit literal next to a range is avoided), "
+             "texts > 4 KiB. Trusted: TLC, the harness's per-stage catch_unwind and the 20 s watchdog.",
+        technique="TLA+ specs (Translate/VM panic sites model-checked; Mutate.tla and Lexer.tla as input generators) "
+                  "explored with TLC; replay of every text through all stages under crash/time capture",
+    ),
     "C06": dict(
         category="model_checking",
         text="Constraint.tla: Admit (the checker's narrow/derive_shape and the VM's BuildConstraint/CheckConstraint/"
